@@ -7,7 +7,7 @@ is not a violation). Bounded by executions and wall time.
 import copy
 import time
 
-from .core import execute
+from .core import execute_isolated as execute
 
 
 class Budget:
